@@ -4884,6 +4884,12 @@ impl<'a> SpanTotal<'a> {
         let denom = (relative1 - relative0).get() as f64;
         let numer = (relative_end.to_nanosecond() - relative0).get() as f64;
         let unit_val = relspan.span.get_units_ranged(self.unit).get() as f64;
+        // The length of the unit can be zero when a time zone transition
+        // skips an entire day (e.g., `Pacific/Palau` in 1844), in which case
+        // there is no fractional part. (And we must not divide by zero.)
+        if denom == 0.0 {
+            return Ok(unit_val);
+        }
         Ok(unit_val + (numer / denom) * (sign.get() as f64))
     }
 
